@@ -204,7 +204,33 @@ func runC05(env *Env) {
 			}
 		}
 	}
-	_ = strings.Join
+	// the same fork/join activated again and again (a loop around the block): one release per fork activation,
+	// every time (the join's and its tracker's picture must start afresh)
+	loop := &Blk{Kind: "loop", ID: 3, N: 3, Kids: []*Blk{{Kind: "seq", Kids: []*Blk{{Kind: "task", ID: 1},
+		{Kind: "incl", ID: 0, N: 1, Kids: []*Blk{{Kind: "task", ID: 2}, {Kind: "task", ID: 3}, {Kind: "skip"}}}, {Kind: "task", ID: 4}}}}}
+	inLoop := map[int]int{}
+	blkTasksInLoop(loop, false, inLoop, 0)
+	for s := 0; s < 6 && !rep.Saturated(); s++ {
+		sc := blkScript{seed: env.Seed*1000 + int64(s) + 7, inLoop: inLoop}
+		cs := fmt.Sprintf("loop around an inclusive fork/join with both branches activated, 3 passes, script seed %d", sc.seed)
+		env.Current(cs)
+		ch, wr := sc.funcs()
+		o := RunBlk(loop, [4]bool{true, true, false, false}, ch, func(task, nth int) [4]int {
+			w := wr(task, nth)
+			w[0], w[1], w[2] = -1, -1, -1 // the conditions stay true in every pass
+			return w
+		}, 60)
+		rep.Evaluations++
+		rep.Nontrivial++
+		rep.Count("loop_reentry")
+		if o.problem != "" {
+			key := "C05-join-late"
+			if strings.Contains(o.problem, "pending requests") && !strings.Contains(o.problem, "pending requests []") {
+				key = "C05-join-once"
+			}
+			rep.Violate(key, cs, o.problem+"; log: "+logString(o.log))
+		}
+	}
 	env.WriteCases(rep, "", "Corr.C05corr", "list nat * nat * list nat * nat * list nat * list nat * list nat", items, "c05_mismatches")
 	env.WriteReport(rep)
 }
